@@ -1,17 +1,17 @@
-\* witness wanted (coarse schedule, replayable): ViewConsistent fails for the code as it is
+\* behaviours that reach rarely taken decision branches (GoalCover in MCDiscovery.tla)
 SPECIFICATION SpecB
 CONSTANTS
   Peers = {"p1", "p2"}
   Self = "self"
   Limit = 1
   Workers = {"w1"}
-  Callers = {}
+  Callers = {"c1", "c2"}
   Delay = 1
   MaxRounds = 1
-  MaxDrops = 1
+  MaxDrops = 0
   MaxInbound = 0
   MaxFail = 0
-  MaxCalls = 0
+  MaxCalls = 3
   MaxApi = 0
   WithGC = FALSE
   AtomicPeers = FALSE
@@ -19,8 +19,8 @@ CONSTANTS
   Serialized = FALSE
   DirectAPI = FALSE
   MaxLen = 200
-  Wanted = {}
+  Wanted = {"wake2", "cancelpark", "cancel"}
 CHECK_DEADLOCK FALSE
 VIEW state
 ACTION_CONSTRAINT CoarseSchedule
-INVARIANTS ViewConsistent
+INVARIANTS GoalCover
